@@ -284,4 +284,175 @@ example : failureCount false [⟨.successfulCommand, false, true⟩, ⟨.cancell
 example : failureCount false [⟨.successfulCommand, false, true⟩, ⟨.propagatedFailureCommand, true, false⟩] = 1 := by decide
 example : failureCount false [⟨.successfulCommand, false, true⟩, ⟨.skippedCommand, false, true⟩] = 0 := by decide
 
+/-! ### "when a command fails" — by exit status or by ANY signal: what an executed command reports -/
+
+theorem ChildEnd.mem_all (e : ChildEnd) (h : e.wf = true) : e ∈ ChildEnd.all := by
+  unfold ChildEnd.all
+  cases e with
+  | exited c =>
+    simp only [ChildEnd.wf, decide_eq_true_eq] at h
+    exact List.mem_append_left _ (List.mem_map.2 ⟨c, List.mem_range.2 h, rfl⟩)
+  | signaled s core =>
+    simp only [ChildEnd.wf, Bool.and_eq_true, decide_eq_true_eq] at h
+    refine List.mem_append_right _ (List.mem_flatMap.2 ⟨s - 1, List.mem_range.2 (by omega), ?_⟩)
+    have : s - 1 + 1 = s := by omega
+    rw [this]
+    cases core <;> simp
+
+/-- per child end: success is reported exactly for `exit(0)`; everything else is a failure kind; `Cancelled` only for a signal -/
+def childEndOk (e : ChildEnd) : Bool :=
+  (match executedResult e with
+   | .continue => e == .exited 0
+   | .kind k => isFailureKind k && e != .exited 0
+   | _ => false) &&
+  (waitProcStatus e.encode != .cancelled || (match e with | .signaled _ _ => true | _ => false))
+
+private theorem child_end_table : ∀ e ∈ ChildEnd.all, childEndOk e = true := by decide +kernel
+
+/-- **C10_child_end_outcomes.**  For EVERY way a child process can end — `exit(c)` for every c < 256, death by every signal
+1..64 with or without a core dump — the result of the executed external command (`cleanUpExecutedProcess` classifying the
+wait status, then the completion lambda of `ExternalCommand::execute`) is `computeCommandResult` (a successful kind) **iff**
+the child called `exit(0)`; in every other case it is one of the three failure kinds.  So a command killed by SIGTERM,
+SIGSEGV, SIGABRT, … is a failed command like one that exits non-zero. -/
+theorem C10_child_end_outcomes (e : ChildEnd) (h : e.wf = true) :
+    (executedResult e = .continue ↔ e = .exited 0) ∧
+    (e ≠ .exited 0 → ∃ k, executedResult e = .kind k ∧ isFailureKind k = true) ∧
+    (waitProcStatus e.encode = .cancelled → ∃ s c, e = .signaled s c) ∧
+    isSuccessfulCommand computeCommandResultKind = true := by
+  have t := child_end_table e (ChildEnd.mem_all e h)
+  unfold childEndOk at t
+  simp only [Bool.and_eq_true, Bool.or_eq_true, bne_iff_ne, ne_eq] at t
+  obtain ⟨t1, t2⟩ := t
+  refine ⟨?_, ?_, ?_, by decide⟩
+  · constructor
+    · intro hc; rw [hc] at t1; simpa using t1
+    · intro he
+      cases hr : executedResult e with
+      | «continue» => rfl
+      | kind k => rw [hr] at t1; simp [he] at t1
+      | asIs => rw [hr] at t1; simp at t1
+      | unreachable => rw [hr] at t1; simp at t1
+  · intro hne
+    cases hr : executedResult e with
+    | «continue» => rw [hr] at t1; simp at t1; exact absurd t1 hne
+    | kind k => rw [hr] at t1; simp at t1; exact ⟨k, rfl, t1.1⟩
+    | asIs => rw [hr] at t1; simp at t1
+    | unreachable => rw [hr] at t1; simp at t1
+  · intro hc
+    rcases t2 with t2 | t2
+    · exact absurd hc (by simpa using t2)
+    · cases e with
+      | exited c => simp at t2
+      | signaled s c => exact ⟨s, c, rfl⟩
+
+example : executedResult (.signaled 15 false) = .kind .failedCommand := by decide +kernel   -- SIGTERM
+example : executedResult (.signaled 11 true) = .kind .failedCommand := by decide +kernel    -- SIGSEGV, core dumped
+example : executedResult (.signaled 9 false) = .kind .cancelledCommand := by decide +kernel -- SIGKILL
+example : executedResult (.exited 0) = .continue := by decide +kernel
+example : executedResult (.exited 1) = .kind .failedCommand := by decide +kernel
+
+/-! ### "the next build re-attempts it": a stored failure never enables the update-without-running shortcut -/
+
+private theorem upd_table :
+    (∀ c ∈ bools, updateGuard c false = false) ∧
+    (∀ k ∈ Kind.all, ∀ b ∈ bools, isSuccessfulCommand k = false → priorHasPrior k b = b) ∧
+    hasPriorResultInit = false := by decide
+
+/-- an input value never sets `hasPriorResult` -/
+private theorem input_hasPrior (allow : Bool) (l l' : Life) (k : Kind) (h : l.step allow (.input k) = some l') :
+    l'.upd.hasPrior = l.upd.hasPrior := by
+  simp only [Life.step] at h
+  split at h
+  · simp at h
+  · split at h
+    · simp at h; subst h; rfl
+    · split at h <;> (simp at h; subst h; rfl)
+
+private theorem inputs_hasPrior (allow : Bool) (ks : List Kind) (l l' : Life)
+    (h : Life.steps allow l (ks.map .input) = some l') : l'.upd.hasPrior = l.upd.hasPrior := by
+  induction ks generalizing l with
+  | nil => simp [Life.steps] at h; subst h; rfl
+  | cons k ks ih =>
+    simp only [List.map_cons, Life.steps] at h
+    cases hs : l.step allow (.input k) with
+    | none => simp [hs] at h
+    | some l1 =>
+      simp only [hs] at h
+      rw [ih l1 h, input_hasPrior allow l l1 k hs]
+
+private theorem steps_append (allow : Bool) (l : Life) (a b : List LifeStep) :
+    Life.steps allow l (a ++ b) = (Life.steps allow l a).bind fun l' => Life.steps allow l' b := by
+  induction a generalizing l with
+  | nil => simp [Life.steps]
+  | cons s a ih =>
+    simp only [List.cons_append, Life.steps]
+    cases l.step allow s with
+    | none => simp
+    | some l1 => simp [ih]
+
+/-- what one build does to `hasPriorResult`, given its value `b` after `start` -/
+private theorem build_hasPrior (allow : Bool) (prior : Option Kind) (ks : List Kind) (l l' : Life)
+    (hp : ∀ k, prior = some k → isSuccessfulCommand k = false)
+    (h : Life.steps allow l (buildSteps prior ks) = some l') :
+    l'.upd.hasPrior = startHasPrior l.upd.hasPrior := by
+  unfold buildSteps at h
+  simp only [List.cons_append, Life.steps, Life.step] at h
+  rw [steps_append] at h
+  cases prior with
+  | none =>
+    simp only [Life.steps, Option.bind] at h
+    rw [inputs_hasPrior allow ks _ l' h]
+  | some k =>
+    simp only [Life.steps, Life.step, Option.bind] at h
+    rw [inputs_hasPrior allow ks _ l' h]
+    exact upd_table.2.1 k (Kind.mem_all k) _ (bools_all _) (hp k rfl)
+
+/-- **C10_failed_prior_is_rerun (fresh command object).**  A build in which the engine hands the command a prior value that
+is not a successful one (FailedCommand, PropagatedFailureCommand, CancelledCommand, SkippedCommand, …) or no prior value at
+all: whatever the inputs deliver, `allow-modified-outputs` or not, outputs on disk or not, `execute` never takes the
+"update without running" block — it skips (failed input) or RUNS the command.  Stated for a command object that has not been
+through an earlier build (a new process / new `BuildSystem` per build, as the `llbuild` tool does); holds with or without F47. -/
+theorem C10_failed_prior_is_rerun (allow amo anyMissing : Bool) (prior : Option Kind) (ks : List Kind) (l' : Life)
+    (hp : ∀ k, prior = some k → isSuccessfulCommand k = false)
+    (h : Life.steps allow Life.init (buildSteps prior ks) = some l') :
+    execute2 amo anyMissing l' ≠ .update := by
+  have hh := build_hasPrior allow prior ks Life.init l' hp h
+  have h0 : startHasPrior Life.init.upd.hasPrior = false ∨ startHasPrior Life.init.upd.hasPrior = Life.init.upd.hasPrior := by
+    have : ∀ b ∈ bools, startHasPrior b = false ∨ startHasPrior b = b := by decide
+    exact this _ (bools_all _)
+  have hf : l'.upd.hasPrior = false := by
+    rcases h0 with h0 | h0
+    · rw [hh, h0]
+    · rw [hh, h0]; exact upd_table.2.2
+  unfold execute2
+  split
+  · simp
+  · rw [hf, upd_table.1 _ (bools_all _)]; simp
+
+/-- **C10_failed_prior_is_rerun_reused.**  The same for a command object with ANY earlier life (a `BuildSystem` reused for
+several builds, as `BuildSystemFrontend::build` does: `l` is whatever state the earlier builds left).  Needs `start` to
+reset `hasPriorResult` (generated `startHasPrior`); before fix F47 it did not (`startHasPrior old = old`) and a command that
+once had a successful prior value took the update block after a FAILED result too (witness on the real code:
+`life 1 1 s,p10,x,s,p11,x` gave `update;update`). -/
+theorem C10_failed_prior_is_rerun_reused (allow amo anyMissing : Bool) (prior : Option Kind) (ks : List Kind) (l l' : Life)
+    (hp : ∀ k, prior = some k → isSuccessfulCommand k = false)
+    (h : Life.steps allow l (buildSteps prior ks) = some l') :
+    execute2 amo anyMissing l' ≠ .update := by
+  have hreset : ∀ b ∈ bools, startHasPrior b = false := by decide
+  have hf : l'.upd.hasPrior = false := by rw [build_hasPrior allow prior ks l l' hp h, hreset _ (bools_all _)]
+  unfold execute2
+  split
+  · simp
+  · rw [hf, upd_table.1 _ (bools_all _)]; simp
+
+/-- the state a reused command is in after a build whose prior value was a success -/
+example : (Life.steps false Life.init (buildSteps (some .successfulCommand) [])).map (·.upd.hasPrior) = some true := by decide
+/-- … and the next build on the same object, prior value `FailedCommand`, outputs on disk, allow-modified-outputs: it RUNS -/
+example : ((Life.steps false Life.init (buildSteps (some .successfulCommand) [])).bind
+    fun l => Life.steps false l (buildSteps (some .failedCommand) [])).map (execute2 true false) = some .run := by decide
+
+example : (Life.steps false Life.init (buildSteps (some .failedCommand) [.existingInput])).map (execute2 true false) = some .run := by decide
+example : (Life.steps false Life.init (buildSteps (some .successfulCommand) [.existingInput])).map (execute2 true false) = some .update := by decide
+example : (Life.steps false Life.init (buildSteps (some .successfulCommand) [.missingOutput])).map (execute2 true false) = some .run := by decide
+
 end LLBuild.FailProp
